@@ -82,6 +82,21 @@ static Verdict check_c15(const TCase& tc, Stats& st)
     // "in isolation" includes per-thread state: every expected result is computed on a brand-new thread (fresh thread_local storage), so that
     // something a call leaves behind in thread-local or static storage shows up as a difference when the history runs the calls on one thread
     for (size_t t = 0; t < tc.threads.size(); ++t) for (auto& op : tc.threads[t]) { OpResult r; eng::on_big_stack([&] { r = run_op<TT>(c, op); }, size_t(64) << 20); expect[t].push_back(r); }
+    // a call that is interrupted by ANOTHER call on the same parser (started from inside one of its functors, reporting to a stream of its own) gives the result
+    // it gives without the interruption: re-entrancy on one thread is an interleaving too
+    for (size_t t = 0; t < tc.threads.size(); ++t) for (size_t i = 0; i < tc.threads[t].size(); ++i)
+    {
+        const Op& op = tc.threads[t][i];
+        if (op.nested_at < 0 || op.fail_at >= 0 || op.kind == 2 || !expect[t][i].nested_ran) continue;
+        Op plain_op = op; plain_op.nested_at = -1;
+        OpResult plain; eng::on_big_stack([&] { plain = run_op<TT>(c, plain_op); }, size_t(64) << 20);
+        const OpResult& e = expect[t][i];
+        if (plain.threw != e.threw || plain.has != e.has || plain.value != e.value || plain.err != e.err || plain.ctx_seen != e.ctx_seen)
+        {
+            vj::Value d = vj::Value::object(); d.set("thread", (unsigned long long)t); d.set("op", (unsigned long long)i); d.set("stream_without_nested_call", plain.err.substr(0, 2000)); d.set("stream_with_nested_call", e.err.substr(0, 2000));
+            return Verdict::fail("a call interrupted by another call on the same parser (from inside a functor, own stream) gave a different result or stream text than without the interruption", d);
+        }
+    }
     if (!image_same()) return Verdict::fail("the parser object changed during const calls (isolated phase)");
     if (tpl::g_nonconst_calls.load() != 0) return Verdict::fail("a functor stored in the parser was invoked as a non-const object: a const parse can write into the parser object");
     auto desc = [&](size_t t, size_t i) { vj::Value d = vj::Value::object(); d.set("thread", (unsigned long long)t); d.set("op", (unsigned long long)i); const Op& op = tc.threads[t][i]; d.set("kind", op.kind == 0 ? "parse" : op.kind == 1 ? "context_parse" : "write_diag_str"); if (op.kind != 2) d.set("input", c.inputs[size_t(op.input)].text); d.set("verbose", op.verbose); return d; };
